@@ -1,8 +1,8 @@
 (* JsonModel.v -- executable model of the JSON reader and writer of Qentem
    (definitions only; proofs in JsonProofs*.v).
 
-   Modelled C++ (after the repairs D2, D11, D15, D16, D31, D32, D33 -- see
-   /verif/findings):
+   Modelled C++ (after the repairs D2, D11, D15, D16, D61, D62 of this component and
+   D28, D43, D44, D45 of the digit component -- see /verif/findings):
      Include/JSON.hpp        Parse, parseObject, parseArray, parseValue
      Include/JSONUtils.hpp   UnEscape<true>, Escape, JSONotation_T (via gen/Tables_json.v)
      Include/StringUtils.hpp TrimLeft
@@ -15,8 +15,8 @@
 
    Representation.  The single cursor (content, offset, length) is the list of
    the units from [offset] to the end: [offset < length] is [has r],
-   [content[offset]] is [rd site r] (an explicit [Err (OOB site)] when nothing is
-   left), [++offset] is [adv site r] (an explicit [Err (Past site)] when the
+   [content[offset]] is [rd site r] (an explicit [JErr (OOB site)] when nothing is
+   left), [++offset] is [adv site r] (an explicit [JErr (Past site)] when the
    cursor would pass [length]), the failure sentinel [offset = length] is [[]].
    Sites are 1000+line for JSON.hpp, 2000+line for JSONUtils.hpp, 3000+line for
    Digit.hpp (line numbers of the pinned tree).  Inside loops whose C++ condition
@@ -26,30 +26,31 @@
    char (UTF-8), 1 for char16_t, 2 for char32_t and 3 for wchar_t (4 bytes). *)
 From Coq Require Import NArith ZArith List Bool.
 From Qv Require Import gen.Tables_json.
+From Qv Require DigitModel.     (* only powerOfPositiveTen's overflow verdict (D43) is used *)
 Import ListNotations.
 Local Open Scope N_scope.
 
 (* ------------------------------------------------------------------ *)
 (* outcomes *)
 Inductive jerr := OOB (site : N) | Past (site : N) | Fuel.
-Inductive res (A : Type) := Ok (a : A) | Err (e : jerr).
-Arguments Ok {A} a.
-Arguments Err {A} e.
-Definition bind {A B} (x : res A) (f : A -> res B) : res B :=
-  match x with Ok a => f a | Err e => Err e end.
+Inductive jres (A : Type) := JOk (a : A) | JErr (e : jerr).
+Arguments JOk {A} a.
+Arguments JErr {A} e.
+Definition bind {A B} (x : jres A) (f : A -> jres B) : jres B :=
+  match x with JOk a => f a | JErr e => JErr e end.
 Notation "x <- e ;; k" := (bind e (fun x => k)) (at level 61, e at next level, right associativity).
 Notation "' p <- e ;; k" := (bind e (fun x => match x with p => k end))
   (at level 61, p pattern, e at next level, right associativity).
 
 Definition has (r : list N) : bool := match r with [] => false | _ => true end.
-Definition rd (site : N) (r : list N) : res N :=
-  match r with [] => Err (OOB site) | c :: _ => Ok c end.
-Definition adv (site : N) (r : list N) : res (list N) :=
-  match r with [] => Err (Past site) | _ :: t => Ok t end.
-Fixpoint advn (site : N) (n : nat) (r : list N) : res (list N) :=
+Definition rd (site : N) (r : list N) : jres N :=
+  match r with [] => JErr (OOB site) | c :: _ => JOk c end.
+Definition adv (site : N) (r : list N) : jres (list N) :=
+  match r with [] => JErr (Past site) | _ :: t => JOk t end.
+Fixpoint advn (site : N) (n : nat) (r : list N) : jres (list N) :=
   match n with
-  | O => Ok r
-  | S n' => match r with [] => Err (Past site) | _ :: t => advn site n' t end
+  | O => JOk r
+  | S n' => match r with [] => JErr (Past site) | _ :: t => advn site n' t end
   end.
 
 Fixpoint list_eqb (a b : list N) : bool :=
@@ -121,16 +122,16 @@ Definition hexval (d : N) : option N :=
 
 (* HexStringToNumber<SizeT32>(content + offset, 4): at most [n] units, stops at the first
    non-hex unit and returns what it has *)
-Fixpoint hexrd (site : N) (n : nat) (r : list N) (acc : N) : res N :=
+Fixpoint hexrd (site : N) (n : nat) (r : list N) (acc : N) : jres N :=
   match n with
-  | O => Ok acc
+  | O => JOk acc
   | S n' =>
     match r with
-    | [] => Err (OOB site)
+    | [] => JErr (OOB site)
     | d :: t =>
       match hexval d with
       | Some v => hexrd site n' t (N.lor (m32 (acc * 16)) v)
-      | None => Ok acc
+      | None => JOk acc
       end
     end
   end.
@@ -140,19 +141,19 @@ Fixpoint hexrd (site : N) (n : nat) (r : list N) (acc : N) : res N :=
    [r] the units from the local offset on, [k] the local offset, [pend] the raw
    units content[offset2 .. offset), [st] the stream.  Result: (returned count, stream);
    count 0 = failure. *)
-Fixpoint unesc (f : nat) (w : N) (r : list N) (k : nat) (pend st : list N) : res (nat * list N) :=
+Fixpoint unesc (f : nat) (w : N) (r : list N) (k : nat) (pend st : list N) : jres (nat * list N) :=
   match f with
-  | O => Err Fuel
+  | O => JErr Fuel
   | S f' =>
-    if negb (has r) then Ok (O, st)                              (* end reached: no closing quote (D31) *)
+    if negb (has r) then JOk (O, st)                              (* end reached: no closing quote (D61) *)
     else
       c <- rd 2086 r ;;
       if c =? jc_quote then
-        Ok (S k, if has st then st ++ pend else st)
+        JOk (S k, if has st then st ++ pend else st)
       else if c =? jc_bslash then
         let st1 := st ++ pend in
         r1 <- adv 2099 r ;;
-        if negb (has r1) then Ok (O, st1)                          (* guard added by D15 *)
+        if negb (has r1) then JOk (O, st1)                          (* guard added by D15 *)
         else
           ch <- rd 2102 r1 ;;
           r2 <- adv 2102 r1 ;;                                     (* the unit after the escape letter *)
@@ -175,16 +176,16 @@ Fixpoint unesc (f : nat) (w : N) (r : list N) (k : nat) (pend st : list N) : res
                 let code2 := m32 (m32 (code1 + N.land lo 1023) + 65536) in
                 r12 <- advn 2161 4 r8 ;;
                 unesc f' w r12 (12 + k) [] (st1 ++ to_utf w code2)
-              else Ok (O, st1)
-            else Ok (O, st1)
-          else Ok (O, st1)
-      else if (c =? jc_ctl_n) || (c =? jc_ctl_t) || (c =? jc_ctl_r) then Ok (O, st)
+              else JOk (O, st1)
+            else JOk (O, st1)
+          else JOk (O, st1)
+      else if (c =? jc_ctl_n) || (c =? jc_ctl_t) || (c =? jc_ctl_r) then JOk (O, st)
       else
         r1 <- adv 2188 r ;;
         unesc f' w r1 (S k) (pend ++ [c]) st
   end.
 
-Definition unescape (w : N) (r st : list N) : res (nat * list N) :=
+Definition unescape (w : N) (r st : list N) : jres (nat * list N) :=
   unesc (S (length r)) w r O [] st.
 
 (* ------------------------------------------------------------------ *)
@@ -221,21 +222,21 @@ Fixpoint skip_zeros (i : nat) (r : list N) (digit : N) : nat * list N * N :=
   | d :: t => if d =? dc_zero then skip_zeros (S i) t d else (i, r, d)
   end.
 
-Fixpoint digits_upto (m i : nat) (r : list N) (digit num : N) {struct r} : res (nat * list N * N * N) :=
+Fixpoint digits_upto (m i : nat) (r : list N) (digit num : N) {struct r} : jres (nat * list N * N * N) :=
   if (i <? m)%nat then
     match r with
-    | [] => Err (OOB 3311)
+    | [] => JErr (OOB 3311)
     | d :: t =>
       if is_dig d then digits_upto m (S i) t d (m64 (num * 10 + d - dc_zero))
-      else Ok (i, r, d, num)
+      else JOk (i, r, d, num)
     end
-  else Ok (i, r, digit, num).
+  else JOk (i, r, digit, num).
 
 (* state of the mantissa loop *)
 Record mst := { m_i : nat; m_r : list N; m_digit : N; m_num : N; m_hasdot : bool; m_real : bool; m_dot : nat }.
 Inductive mstep := MCont (s : mst) | MBreak (s : mst) | MNaN.
 
-Definition mant_iter (m : nat) (s : mst) : res mstep :=
+Definition mant_iter (m : nat) (s : mst) : jres mstep :=
   '(i1, r1, dg1, num1) <- digits_upto m (m_i s) (m_r s) (m_digit s) (m_num s) ;;
   let s1 := {| m_i := i1; m_r := r1; m_digit := dg1; m_num := num1; m_hasdot := m_hasdot s; m_real := m_real s; m_dot := m_dot s |} in
   if dg1 =? dc_dot then
@@ -245,31 +246,34 @@ Definition mant_iter (m : nat) (s : mst) : res mstep :=
       let s2 d := {| m_i := i2; m_r := r2; m_digit := d; m_num := num1; m_hasdot := true; m_real := true; m_dot := i1 |} in
       if (i2 <? m)%nat then
         d <- rd 3334 r2 ;;
-        if is_dig19 d then Ok (MCont (s2 d))
+        if is_dig19 d then JOk (MCont (s2 d))
         else if (d =? dc_zero) && (S i2 <? m)%nat then
           d2 <- rd 3341 (tl r2) ;;
-          if is_dig d2 then Ok (MCont (s2 d2)) else Ok (MBreak (s2 d2))
-        else Ok (MBreak (s2 d))
-      else Ok (MBreak (s2 dg1))
-    else Ok MNaN
-  else Ok (MBreak s1).
+          if is_dig d2 then JOk (MCont (s2 d2)) else JOk (MBreak (s2 d2))
+        else JOk (MBreak (s2 d))
+      else JOk (MBreak (s2 dg1))
+    else JOk MNaN
+  else JOk (MBreak s1).
 
-Fixpoint mant_loop (f : nat) (m : nat) (s : mst) : res mstep :=
+Fixpoint mant_loop (f : nat) (m : nat) (s : mst) : jres mstep :=
   match f with
-  | O => Err Fuel
+  | O => JErr Fuel
   | S f' =>
     if has (m_r s) then
       st <- mant_iter m s ;;
       match st with
       | MCont s1 => mant_loop f' m s1
-      | other => Ok other
+      | other => JOk other
       end
-    else Ok (MBreak s)
+    else JOk (MBreak s)
   end.
 
 Fixpoint pexp_digits (i : nat) (r : list N) (ex : N) : nat * list N * N :=
   match r with
-  | d :: t => if is_dig d then pexp_digits (S i) t (m32 (m32 (ex * 10) + (d - dc_zero))) else (i, r, ex)
+  | d :: t =>
+    if is_dig d then
+      pexp_digits (S i) t (if ex <? 100000000 then m32 (m32 (ex * 10) + (d - dc_zero)) else ex)   (* D44: saturates *)
+    else (i, r, ex)
   | [] => (i, r, ex)
   end.
 
@@ -307,7 +311,7 @@ Fixpoint tail_loop (i : nat) (r : list N) (hasdot : bool) (dot expoff : nat) : o
 
 Definition nat32 (n : nat) : N := m32 (N.of_nat n).
 
-(* the part after the mantissa of a real (D33: also run for a zero mantissa, where only the
+(* the part after the mantissa of a real (D45: also run for a zero mantissa, where only the
    range test and the scaling are skipped) *)
 Definition real_tail (num : N) (i : nat) (r : list N) (hasdot fraconly : bool) (dot start tmp : nat) : numres :=
   let e_p10 := sub32 (sub32 (nat32 tmp) (nat32 start)) (b2n (negb fraconly && hasdot)) in
@@ -334,132 +338,143 @@ Definition real_tail (num : N) (i : nat) (r : list N) (hasdot fraconly : bool) (
       if neg1 then (m32 (ex1 + e_n10), neg1)
       else if e_n10 <=? ex1 then (sub32 ex1 e_n10, neg1)
       else (sub32 e_n10 ex1, true) in
-    if negb (num =? 0) &&
-       ((neg2 && (e_p10 <? ex2) && (324 <? sub32 ex2 e_p10)) || (negb neg2 && (309 <? m32 (ex2 + e_p10))))
-    then NumNaN
-    else NumReal (t_r t)
+    if num =? 0 then NumReal (t_r t)                                   (* D45: a zero mantissa is not scaled *)
+    else if negb neg2 && (309 <? m32 (ex2 + e_p10)) then NumNaN
+    else if neg2 then
+      if (e_p10 <? ex2) && (324 <? sub32 ex2 e_p10) then NumNaN else NumReal (t_r t)
+    else
+      match DigitModel.power_of_positive_ten num ex2 with              (* D43: beyond the largest double *)
+      | DigitModel.Ok None => NumNaN
+      | _ => NumReal (t_r t)
+      end
   end.
 
 Definition nat_max_div10 : N := 1844674407370955161.   (* 0x1999999999999999 *)
 Definition int_max : N := 9223372036854775807.
+Definition int_min_abs : N := 9223372036854775808.
 
-Definition scan_number (r0 : list N) : res numres :=
-  if negb (has r0) then Ok NumNaN
+(* everything after the first character: the mantissa loop, the 20th digit, the result *)
+Definition scan_go (neg : bool) (s : mst) (m : nat) (fraconly : bool) (start : nat) : jres numres :=
+  st <- mant_loop 3 m s ;;
+  match st with
+  | MNaN => JOk NumNaN
+  | MCont _ => JOk NumNaN   (* not produced by mant_loop *)
+  | MBreak s1 =>
+    let i1 := m_i s1 in
+    let r1 := m_r s1 in
+    let num1 := m_num s1 in
+    (* tmp_offset = offset; the 20th digit *)
+    '(i2, r2, num2, tmp2, real2) <-
+       (if negb (m_real s1) && has r1 then
+          dg <- rd 3363 r1 ;;
+          if is_dee dg then JOk (i1, r1, num1, i1, true)
+          else if is_dig dg then
+            if (nat_max_div10 <? num1) || ((num1 =? nat_max_div10) && (dc_five <? dg)) then JOk (i1, r1, num1, i1, true)
+            else
+              let num' := m64 (num1 * 10 + dg - dc_zero) in
+              r' <- adv 3384 r1 ;;
+              if has r' then
+                dg2 <- rd 3388 r' ;;
+                JOk (S i1, r', num', S i1, is_dee dg2 || is_dig dg2)
+              else JOk (S i1, r', num', S i1, false)
+          else JOk (i1, r1, num1, i1, false)
+        else JOk (i1, r1, num1, i1, m_real s1)) ;;
+    if negb real2 && negb neg then JOk (NumNat num2 r2)
+    else if negb real2 && (num2 =? 0) then JOk (NumReal r2)        (* -0 *)
+    else if negb real2 && (num2 <=? int_min_abs) then JOk (NumInt (Z.opp (Z.of_N num2)) r2)   (* D28 *)
+    else if (negb (num2 =? 0)) || real2 then
+      JOk (real_tail num2 i2 r2 (m_hasdot s1) fraconly (m_dot s1) start tmp2)
+    else JOk (NumReal r2)
+  end.
+
+(* the unit after a leading zero: hexadecimal, a second digit (not a number), or go on *)
+Definition scan_zero (i : nat) (r : list N) (d : N) : jres (option (N * list N) * bool * nat * list N * N) :=
+  if (d =? dc_zero) && has (tl r) then
+    r1 <- adv 3272 r ;;
+    d1 <- rd 3273 r1 ;;
+    if (d1 =? dc_x) || (d1 =? dc_ux) then
+      r2 <- adv 3277 r1 ;;
+      JOk (Some (hex_loop r2 0), false, S i, r1, d1)
+    else if is_dig d1 then JOk (None, true, S i, r1, d1)
+    else JOk (None, false, S i, r1, d1)
+  else JOk (None, false, i, r, d).
+
+(* after the sign *)
+Definition scan_unsigned (neg : bool) (i : nat) (r : list N) : jres numres :=
+  let tmp0 := i in
+  if negb (has r) then JOk NumNaN
+  else
+    d <- rd 3261 r ;;
+    if is_dig19 d then
+      r1 <- adv 3269 r ;;
+      scan_go neg {| m_i := S i; m_r := r1; m_digit := d; m_num := m64 (d - dc_zero); m_hasdot := false; m_real := false; m_dot := O |}
+              (window i r) false i
+    else if (d =? dc_zero) || (d =? dc_dot) then
+      '(hexret, nan, i1, r1, d1) <- scan_zero i r d ;;
+      match hexret with
+      | Some (n, rr) => JOk (NumNat n rr)
+      | None =>
+        if nan then JOk NumNaN
+        else if d1 =? dc_dot then
+          r2 <- adv 3291 r1 ;;
+          let dot := i1 in
+          let start := S i1 in
+          let '(i3, r3, d3) := skip_zeros (S i1) r2 d1 in
+          if (start =? i3)%nat && (dot =? tmp0)%nat && ((d3 <? dc_zero) || (dc_nine <? d3)) then JOk NumNaN
+          else
+            scan_go neg {| m_i := i3; m_r := r3; m_digit := d3; m_num := 0; m_hasdot := true; m_real := true; m_dot := dot |}
+                    (window i3 r3) true i3
+        else
+          scan_go neg {| m_i := i1; m_r := r1; m_digit := d1; m_num := 0; m_hasdot := false; m_real := false; m_dot := O |}
+                  (window i1 r1) false O
+      end
+    else JOk NumNaN.
+
+Definition scan_number (r0 : list N) : jres numres :=
+  if negb (has r0) then JOk NumNaN
   else
     d0 <- rd 3242 r0 ;;
-    '(neg, i, r) <-
-        (if d0 =? dc_neg then (r1 <- adv 3252 r0 ;; Ok (true, 1%nat, r1))
-         else if d0 =? dc_pos then (r1 <- adv 3255 r0 ;; Ok (false, 1%nat, r1))
-         else Ok (false, O, r0)) ;;
-    let tmp0 := i in
-    if negb (has r) then Ok NumNaN
-    else
-      d <- rd 3261 r ;;
-      (* phase 1: first digit / zero / dot; yields the state of the mantissa loop, the window and flags *)
-      let go (s : mst) (m : nat) (fraconly : bool) (start : nat) : res numres :=
-        st <- mant_loop 3 m s ;;
-        match st with
-        | MNaN => Ok NumNaN
-        | MCont _ => Ok NumNaN   (* not produced by mant_loop *)
-        | MBreak s1 =>
-          let i1 := m_i s1 in
-          let r1 := m_r s1 in
-          let num1 := m_num s1 in
-          (* tmp_offset = offset; the 20th digit *)
-          '(i2, r2, num2, tmp2, real2) <-
-             (if negb (m_real s1) && has r1 then
-                dg <- rd 3363 r1 ;;
-                if is_dee dg then Ok (i1, r1, num1, i1, true)
-                else if is_dig dg then
-                  if (nat_max_div10 <? num1) || ((num1 =? nat_max_div10) && (dc_five <? dg)) then Ok (i1, r1, num1, i1, true)
-                  else
-                    let num' := m64 (num1 * 10 + dg - dc_zero) in
-                    r' <- adv 3384 r1 ;;
-                    if has r' then
-                      dg2 <- rd 3388 r' ;;
-                      Ok (S i1, r', num', S i1, is_dee dg2 || is_dig dg2)
-                    else Ok (S i1, r', num', S i1, false)
-                else Ok (i1, r1, num1, i1, false)
-              else Ok (i1, r1, num1, i1, m_real s1)) ;;
-          if negb real2 && negb neg then Ok (NumNat num2 r2)
-          else if negb real2 && (num2 =? 0) then Ok (NumReal r2)        (* -0 *)
-          else if negb real2 && (num2 <=? int_max) then Ok (NumInt (Z.opp (Z.of_N num2)) r2)
-          else if (negb (num2 =? 0)) || real2 then
-            Ok (real_tail num2 i2 r2 (m_hasdot s1) fraconly (m_dot s1) start tmp2)
-          else Ok (NumReal r2)
-        end in
-      if is_dig19 d then
-        r1 <- adv 3269 r ;;
-        go {| m_i := S i; m_r := r1; m_digit := d; m_num := m64 (d - dc_zero); m_hasdot := false; m_real := false; m_dot := O |}
-           (window i r) false i
-      else if (d =? dc_zero) || (d =? dc_dot) then
-        (* a zero followed by something: look at the next unit *)
-        '(hexret, nan, i1, r1, d1) <-
-           (if (d =? dc_zero) && has (tl r) then
-              r1 <- adv 3272 r ;;
-              d1 <- rd 3273 r1 ;;
-              if (d1 =? dc_x) || (d1 =? dc_ux) then
-                r2 <- adv 3277 r1 ;;
-                Ok (Some (hex_loop r2 0), false, S i, r1, d1)
-              else if is_dig d1 then Ok (None, true, S i, r1, d1)
-              else Ok (None, false, S i, r1, d1)
-            else Ok (None, false, i, r, d)) ;;
-        match hexret with
-        | Some (n, rr) => Ok (NumNat n rr)
-        | None =>
-          if nan then Ok NumNaN
-          else if d1 =? dc_dot then
-            r2 <- adv 3291 r1 ;;
-            let dot := i1 in
-            let start := S i1 in
-            let '(i3, r3, d3) := skip_zeros (S i1) r2 d1 in
-            if (start =? i3)%nat && (dot =? tmp0)%nat && ((d3 <? dc_zero) || (dc_nine <? d3)) then Ok NumNaN
-            else
-              go {| m_i := i3; m_r := r3; m_digit := d3; m_num := 0; m_hasdot := true; m_real := true; m_dot := dot |}
-                 (window i3 r3) true i3
-          else
-            go {| m_i := i1; m_r := r1; m_digit := d1; m_num := 0; m_hasdot := false; m_real := false; m_dot := O |}
-               (window i1 r1) false O
-        end
-      else Ok NumNaN.
+    if d0 =? dc_neg then (r1 <- adv 3252 r0 ;; scan_unsigned true 1%nat r1)
+    else if d0 =? dc_pos then (r1 <- adv 3255 r0 ;; scan_unsigned false 1%nat r1)
+    else scan_unsigned false O r0.
 
 (* ------------------------------------------------------------------ *)
 (* keyword matcher: [lit] is the rest of the literal INCLUDING its terminator; reading past
    the terminator is an out-of-bounds read of the literal (site 1216) *)
-Fixpoint kw_loop (lit r : list N) {struct lit} : res (list N * list N) :=
+Fixpoint kw_loop (lit r : list N) {struct lit} : jres (list N * list N) :=
   match lit with
-  | [] => if has r then Err (OOB 1216) else Ok (lit, r)
+  | [] => if has r then JErr (OOB 1216) else JOk (lit, r)
   | t :: lit' =>
-    if has r && negb (t =? 0) then                   (* offset < length and the literal unit is not the terminator: D32 *)
+    if has r && negb (t =? 0) then                   (* offset < length and the literal unit is not the terminator: D62 *)
       c <- rd 1216 r ;;
-      if c =? t then (r' <- adv 1218 r ;; kw_loop lit' r') else Ok (lit, r)
-    else Ok (lit, r)
+      if c =? t then (r' <- adv 1218 r ;; kw_loop lit' r') else JOk (lit, r)
+    else JOk (lit, r)
   end.
 
-Definition kw_match (lit : list N) (v : jv) (r : list N) : res (option (jv * list N)) :=
+Definition kw_match (lit : list N) (v : jv) (r : list N) : jres (option (jv * list N)) :=
   '(lit', r') <- kw_loop (tl lit) r ;;
   t <- rd 1221 lit' ;;
-  if t =? 0 then Ok (Some (v, r')) else Ok None.
+  if t =? 0 then JOk (Some (v, r')) else JOk None.
 
 (* ------------------------------------------------------------------ *)
 (* JSON.hpp parseValue / parseObject / parseArray.  Result: (value, cursor, stream). *)
 Definition pres := (jv * list N * list N)%type.
-Definition pfail (st : list N) : res pres := Ok (JUndef, [], st).     (* offset = length; Undefined *)
+Definition pfail (st : list N) : jres pres := JOk (JUndef, [], st).     (* offset = length; Undefined *)
 
 (* the string part shared by parseValue and the key of parseObject: UnEscape, offset += len,
    --len, take the stream when it is not empty and clear it.
    None = UnEscape returned 0 *)
-Definition pstring (w : N) (r1 st : list N) : res (option (list N * list N) * list N) :=
+Definition pstring (w : N) (r1 st : list N) : jres (option (list N * list N) * list N) :=
   '(len, st1) <- unescape w r1 st ;;
-  if (len =? 0)%nat then Ok (None, st1)
+  if (len =? 0)%nat then JOk (None, st1)
   else
     r2 <- advn 1196 len r1 ;;
-    if has st1 then Ok (Some (st1, r2), [])
-    else Ok (Some (firstn (len - 1) r1, r2), st1).
+    if has st1 then JOk (Some (st1, r2), [])
+    else JOk (Some (firstn (len - 1) r1, r2), st1).
 
-Fixpoint pval (f : nat) (w : N) (st r : list N) {struct f} : res pres :=
+Fixpoint pval (f : nat) (w : N) (st r : list N) {struct f} : jres pres :=
   match f with
-  | O => Err Fuel
+  | O => JErr Fuel
   | S f' =>
     if negb (has r) then pfail st                                   (* guard added by D15 *)
     else
@@ -467,48 +482,48 @@ Fixpoint pval (f : nat) (w : N) (st r : list N) {struct f} : res pres :=
       if c =? jc_scurly then
         r1 <- adv 1180 r ;;
         let r2 := trim r1 in
-        isend <- (if negb (has r2) then Ok false else (c2 <- rd 1086 r2 ;; Ok (c2 =? jc_ecurly))) ;;
-        if isend then (r3 <- adv 1136 r2 ;; Ok (JObj [], r3, st))
+        isend <- (if negb (has r2) then JOk false else (c2 <- rd 1086 r2 ;; JOk (c2 =? jc_ecurly))) ;;
+        if isend then (r3 <- adv 1136 r2 ;; JOk (JObj [], r3, st))
         else obj_loop f' w [] st r2
       else if c =? jc_ssquare then
         r1 <- adv 1185 r ;;
         let r2 := trim r1 in
-        isend <- (if negb (has r2) then Ok false else (c2 <- rd 1145 r2 ;; Ok (c2 =? jc_esquare))) ;;
-        if isend then (r3 <- adv 1173 r2 ;; Ok (JArr [], r3, st))
+        isend <- (if negb (has r2) then JOk false else (c2 <- rd 1145 r2 ;; JOk (c2 =? jc_esquare))) ;;
+        if isend then (r3 <- adv 1173 r2 ;; JOk (JArr [], r3, st))
         else arr_loop f' w [] st r2
       else if c =? jc_quote then
         r1 <- adv 1190 r ;;
         '(s, st1) <- pstring w r1 st ;;
         match s with
-        | Some (str, r2) => Ok (JStr str, r2, st1)
+        | Some (str, r2) => JOk (JStr str, r2, st1)
         | None => pfail st1
         end
       else if c =? jc_t then
         r1 <- adv 1214 r ;;
         k <- kw_match jc_true_lit JTrue r1 ;;
-        match k with Some (v, r2) => Ok (v, r2, st) | None => pfail st end
+        match k with Some (v, r2) => JOk (v, r2, st) | None => pfail st end
       else if c =? jc_f then
         r1 <- adv 1231 r ;;
         k <- kw_match jc_false_lit JFalse r1 ;;
-        match k with Some (v, r2) => Ok (v, r2, st) | None => pfail st end
+        match k with Some (v, r2) => JOk (v, r2, st) | None => pfail st end
       else if c =? jc_n then
         r1 <- adv 1248 r ;;
         k <- kw_match jc_null_lit JNull r1 ;;
-        match k with Some (v, r2) => Ok (v, r2, st) | None => pfail st end
+        match k with Some (v, r2) => JOk (v, r2, st) | None => pfail st end
       else
         n <- scan_number r ;;
         match n with
-        | NumNat x r2 => Ok (JNat x, r2, st)
-        | NumInt z r2 => Ok (JInt z, r2, st)
-        | NumReal r2 => Ok (JReal (firstn (length r - length r2) r), r2, st)
+        | NumNat x r2 => JOk (JNat x, r2, st)
+        | NumInt z r2 => JOk (JInt z, r2, st)
+        | NumReal r2 => JOk (JReal (firstn (length r - length r2) r), r2, st)
         | NumNaN => pfail st
         end
   end
-with obj_loop (f : nat) (w : N) (acc : list (list N * jv)) (st r : list N) {struct f} : res pres :=
+with obj_loop (f : nat) (w : N) (acc : list (list N * jv)) (st r : list N) {struct f} : jres pres :=
   match f with
-  | O => Err Fuel
+  | O => JErr Fuel
   | S f' =>
-    inloop <- (if has r then (c <- rd 1089 r ;; Ok (c =? jc_quote)) else Ok false) ;;
+    inloop <- (if has r then (c <- rd 1089 r ;; JOk (c =? jc_quote)) else JOk false) ;;
     if inloop then
       r1 <- adv 1090 r ;;
       '(s, st1) <- pstring w r1 st ;;
@@ -516,7 +531,7 @@ with obj_loop (f : nat) (w : N) (acc : list (list N * jv)) (st r : list N) {stru
       | None => pfail st1
       | Some (key, r2) =>
         let r3 := trim r2 in
-        iscolon <- (if has r3 then (c <- rd 1106 r3 ;; Ok (c =? jc_colon)) else Ok false) ;;   (* guard added by D15 *)
+        iscolon <- (if has r3 then (c <- rd 1106 r3 ;; JOk (c =? jc_colon)) else JOk false) ;;   (* guard added by D15 *)
         if iscolon then
           r4 <- adv 1107 r3 ;;
           let r5 := trim r4 in
@@ -526,16 +541,16 @@ with obj_loop (f : nat) (w : N) (acc : list (list N * jv)) (st r : list N) {stru
           if has r7 then
             c <- rd 1114 r7 ;;
             if c =? jc_comma then (r8 <- adv 1117 r7 ;; obj_loop f' w acc' st2 (trim r8))
-            else if c =? jc_ecurly then (r8 <- adv 1123 r7 ;; Ok (JObj acc', r8, st2))
+            else if c =? jc_ecurly then (r8 <- adv 1123 r7 ;; JOk (JObj acc', r8, st2))
             else pfail st2
           else pfail st2
         else pfail st1
       end
     else pfail st                                                   (* Reset; offset = length (D2) *)
   end
-with arr_loop (f : nat) (w : N) (acc : list jv) (st r : list N) {struct f} : res pres :=
+with arr_loop (f : nat) (w : N) (acc : list jv) (st r : list N) {struct f} : jres pres :=
   match f with
-  | O => Err Fuel
+  | O => JErr Fuel
   | S f' =>
     if has r then
       '(v, r1, st1) <- pval f' w st r ;;
@@ -544,20 +559,20 @@ with arr_loop (f : nat) (w : N) (acc : list jv) (st r : list N) {struct f} : res
       if has r2 then
         c <- rd 1153 r2 ;;
         if c =? jc_comma then (r3 <- adv 1156 r2 ;; arr_loop f' w acc' st1 (trim r3))
-        else if c =? jc_esquare then (r3 <- adv 1162 r2 ;; Ok (JArr acc', r3, st1))
+        else if c =? jc_esquare then (r3 <- adv 1162 r2 ;; JOk (JArr acc', r3, st1))
         else pfail st1
       else pfail st1
     else pfail st                                                   (* Reset; offset = length (D2) *)
   end.
 
 (* JSON::Parse(content, length) with a fresh stream *)
-Definition parse_fuel (f : nat) (w : N) (s : list N) : res jv :=
-  if (length s =? 0)%nat then Ok JUndef
+Definition parse_fuel (f : nat) (w : N) (s : list N) : jres jv :=
+  if (length s =? 0)%nat then JOk JUndef
   else
     '(v, r1, _) <- pval f w [] (trim s) ;;
-    if has (trim r1) then Ok JUndef else Ok v.
+    if has (trim r1) then JOk JUndef else JOk v.
 
-Definition parse (w : N) (s : list N) : res jv := parse_fuel (2 * length s + 4) w s.
+Definition parse (w : N) (s : list N) : jres jv := parse_fuel (2 * length s + 4) w s.
 
 (* ------------------------------------------------------------------ *)
 (* [defined v]: no Undefined anywhere inside *)
@@ -656,7 +671,7 @@ Fixpoint normalize (v : vt) : jv :=
   match v with
   | VUndef => JUndef | VNull => JNull | VTrue => JTrue | VFalse => JFalse
   | VNat n => JNat n
-  | VInt z => JInt z
+  | VInt z => if (0 <=? z)%Z then JNat (Z.to_N z) else JInt z     (* the text of a non-negative integer reads back as unsigned *)
   | VReal txt => JReal txt
   | VStr s => JStr s
   | VArr xs =>
@@ -779,14 +794,12 @@ Definition cchar_wf (w : N) (c : cchar) : bool :=
 Definition digits_wf (ds : list N) : bool :=
   forallb is_dig ds && match ds with [] => false | [d] => true | d :: _ => negb (d =? dc_zero) end.
 Definition ws_wf (l : list N) : bool := forallb is_ws l.
-(* the text of a real numeral: RFC number grammar, recognised below *)
-Fixpoint all_digits1 (l : list N) : bool := match l with [] => false | _ => forallb is_dig l end.
 
 Fixpoint cval_wf (w : N) (v : cval) {struct v} : bool :=
   match v with
   | CNull | CTrue | CFalse => true
   | CNatD ds => digits_wf ds && (dval ds <? 18446744073709551616)
-  | CNegD ds => digits_wf ds && (0 <? dval ds) && (dval ds <=? int_max)
+  | CNegD ds => digits_wf ds && (0 <? dval ds) && (dval ds <=? int_min_abs)
   | CRealT txt => true          (* constrained where it is used: see [real_ok] in the proofs *)
   | CStr s => forallb (cchar_wf w) s
   | CArr w0 items =>
